@@ -1,15 +1,38 @@
-"""C04: binary decoders are total, allocation-bounded and canonical on arbitrary bytes."""
+"""C04: binary decoders are total, allocation-bounded and canonical on arbitrary bytes.
+
+Inputs: (1) WKBMutModel (TLC): every truncation, byte substitutions over the header / count / SRID region, type-word
+forgeries, concatenations of valid encodings x element-limit settings; (2) seeded generators below (ctx.seed): random
+byte strings, splices of two valid encodings at random cut points, multi-byte flips and 32-bit count forgeries anywhere
+in an encoding, deeply nested GEOMETRYCOLLECTION headers, and arbitrary STRINGS for the hex wrappers (odd length,
+non-hex characters, either letter case).  Every input - whatever produced it - is decided by WKBDecObs, which evaluates
+the reference decoder WKB!Decode on its bytes.  Python only generates inputs and plumbs data."""
+import json
+import os
 import random
+import tempfile
+from concurrent.futures import ThreadPoolExecutor
+
 import vlib
 
 MEM = 6 << 30      # address-space limit of each decode process: a forged count must not take the machine down
 
+WRAPS = ["ANY", "PT", "LS", "PG", "MPT", "MLS", "MPG", "GC"]
+LIMS_ON = [[0, 0, 0], [2, 2, 2], [1, 3, 2], [3, 1, 5], [16, 1, 0], [5, 5, 1], [64, 64, 64]]
+LIMS_OFF = [[-1, -1, -1], [-1, -1, -1], [-1, 2, -1], [3, -1, 5], [2, 2, -1]]
+U32S = [0, 1, 2, 3, 5, 64, 65, 255, 256, 65535, 65536, (1 << 31) - 1, 1 << 31, (1 << 32) - 1]
+
 
 def pipe(ctx, verdict, cases, name="wkbdec"):
-    obs = vlib.run_driver(ctx, "wkbdec", cases, mem=MEM, per_call_ms=4000)
+    # (go-geom's decoder and encoder take time quadratic in the nesting depth of collections - GeometryCollection.Empty()
+    # and Layout() walk the whole subtree at every level: 0.2 s at depth 10000, 4 s at 40000.  The property demands
+    # termination, not speed: the nesting generator stops at depth 8000 and the deadline of a call is generous.)
+    obs = vlib.run_driver(ctx, "wkbdec", cases, mem=MEM, per_call_ms=8000)
     viols = vlib.model_b(ctx, "WKBDecObs", "Obs.cfg", obs, name="WKBDecObs")
     for idx, v in viols:
-        o = obs[idx]
+        try:
+            o = obs[idx]
+        except RecursionError:          # a deeply nested result: the verdict stands, the detail is dropped
+            o = {}
         verdict.add(name, v["sig"], cases[idx], dict(alloc=o.get("alloc"), err=o.get("err"), ev=o.get("ev"), msg=o.get("msg", "")[:200]))
     return obs
 
@@ -17,10 +40,205 @@ def pipe(ctx, verdict, cases, name="wkbdec"):
 PIPES = {"wkbdec": pipe}
 
 
+# ------------------------------------------------------------------------------------------- seeded generators
+def u32(v, xdr):
+    b = [(v >> 24) & 255, (v >> 16) & 255, (v >> 8) & 255, v & 255]
+    return b if xdr else b[::-1]
+
+
+def type_word(tid, dim, srid, flavor, xdr):
+    if flavor == "ewkb":
+        return u32(tid | (0x80000000 if dim in (1, 3) else 0) | (0x40000000 if dim in (2, 3) else 0) | (0x20000000 if srid else 0), xdr)
+    return u32(tid + 1000 * dim, xdr)
+
+
+def nest(depth, flavor, xdr, inner, srid_every=0):
+    """depth nested GEOMETRYCOLLECTION headers (one member each) around `inner`."""
+    out = []
+    for k in range(depth):
+        s = flavor == "ewkb" and srid_every and k % srid_every == 0
+        out += [0 if xdr else 1] + type_word(7, 0, s, flavor, xdr) + (u32(4326, xdr) if s else []) + u32(1, xdr)
+    o = [0 if xdr else 1]
+    if inner == "empty":
+        out += o + type_word(7, 0, False, flavor, xdr) + u32(0, xdr)
+    elif inner == "point":
+        out += o + type_word(1, 0, False, flavor, xdr) + [64, 1, 0, 0, 0, 0, 0, 0] * 2
+    elif inner == "badtype":
+        out += o + type_word(99, 0, False, flavor, xdr)
+    elif inner == "count":               # the innermost collection claims members that are not there
+        out += o + type_word(7, 0, False, flavor, xdr) + u32(3, xdr)
+    # "trunc": nothing - the input ends where the innermost member should start
+    return out
+
+
+def guess_wrap(b, flavor, rnd):
+    """the wrapper of the type id the bytes show (half of the time), else any wrapper of the flavour."""
+    ws = WRAPS[1:] if flavor == "ewkb" else WRAPS
+    if len(b) >= 5 and rnd.random() < 0.5:
+        w = WRAPS[(b[5 - 1] if b[0] == 0 else b[1]) % 8]
+        if w in ws:
+            return w
+    return rnd.choice(ws)
+
+
+def hex_strings(b, rnd):
+    h = "".join("%02x" % v for v in b)
+    mixed = "".join(ch.upper() if rnd.random() < 0.5 else ch for ch in h)
+    out = [h, h.upper(), mixed, h[:-1], h + rnd.choice("0aF"), "0x" + h, "\\x" + h, " " + h, h + "\n", h + " "]
+    for _ in range(3):
+        if h:
+            p = rnd.randrange(len(h))
+            out.append(h[:p] + rnd.choice(["g", "G", "x", "z", " ", "-", ":", "\x00", "\x7f", "é", "€", "/", "@", "`"]) + h[p + 1:])
+    return out
+
+
+def candidates(ctx, bases, n):
+    """n seeded candidates dict(bytes, flavor, nan, [hexcodes]); limits / route are chosen after the domain pass."""
+    rnd = random.Random(ctx.seed * 1000003 + 4)
+    out = []
+    small = [0, 0, 0, 0, 1, 1, 2, 3, 255]
+
+    def base():
+        return rnd.choice(bases)
+    while len(out) < n:
+        k = rnd.random()
+        a = base()
+        c = dict(flavor=a["flavor"], nan=a["nan"])
+        if k < 0.10:                        # random bytes
+            c["bytes"] = [rnd.randrange(256) for _ in range(rnd.randrange(0, 73))]
+        elif k < 0.30:                      # random bytes behind a plausible header, small alphabet (counts stay readable)
+            xdr = rnd.random() < 0.5
+            b = [0 if xdr else 1] + type_word(rnd.randrange(0, 9), rnd.choice([0, 0, 1, 2, 3, 4]), rnd.random() < 0.3, a["flavor"], xdr)
+            b += [rnd.choice(small) if rnd.random() < 0.85 else rnd.randrange(256) for _ in range(rnd.randrange(0, 90))]
+            c["bytes"] = b
+        elif k < 0.55:                      # splice / insertion of two valid encodings at random cut points
+            b2 = base()
+            if rnd.random() < 0.7:
+                for _ in range(8):
+                    if b2["flavor"] == a["flavor"]:
+                        break
+                    b2 = base()
+            x, y = a["bytes"], b2["bytes"]
+            i, j = rnd.randrange(len(x) + 1), rnd.randrange(len(y) + 1)
+            if rnd.random() < 0.6:
+                c["bytes"] = x[:i] + y[j:]
+            else:
+                j2 = rnd.randrange(j, len(y) + 1)
+                c["bytes"] = x[:i] + y[j:j2] + x[i:]
+        elif k < 0.75:                      # multi-byte flips anywhere in the encoding
+            b = list(a["bytes"])
+            for _ in range(rnd.randrange(2, 7)):
+                p = rnd.randrange(len(b))
+                b[p] = b[p] ^ (1 << rnd.randrange(8)) if rnd.random() < 0.6 else rnd.randrange(256)
+            c["bytes"] = b
+        elif k < 0.90:                      # a 32-bit word forged anywhere (count fields behind the first 48 bytes too)
+            b = list(a["bytes"])
+            for _ in range(rnd.choice([1, 1, 2])):
+                if len(b) >= 4:
+                    p = rnd.randrange(len(b) - 3)
+                    b[p:p + 4] = u32(rnd.choice(U32S), rnd.random() < 0.5)
+            c["bytes"] = b
+        else:                               # arbitrary strings for the hex wrappers
+            b = list(a["bytes"])
+            if rnd.random() < 0.3:
+                b = b[:rnd.randrange(len(b) + 1)]
+            for s in rnd.sample(hex_strings(b, rnd) + ["", "0", "g", "zz"], 4):
+                out.append(dict(flavor=a["flavor"], nan=a["nan"], bytes=[], hexcodes=[ord(ch) for ch in s]))
+            continue
+        out.append(c)
+    return out
+
+
+def nests(ctx, depths, ref_max=2000):
+    """nested collection headers; inputs longer than ref_max bytes are marked "noref" (WKBDecObs!NoRef: too deep for TLC to
+    evaluate the reference decoder in reasonable time - totality, well-formedness and stability are still demanded)."""
+    rnd = random.Random(ctx.seed * 1000003 + 5)
+    out = []
+    for d in depths:
+        for flavor in ("wkb", "ewkb"):
+            for inner in ("empty", "point", "trunc", "badtype", "count"):
+                xdr = rnd.random() < 0.5
+                b = nest(d, flavor, xdr, inner, srid_every=rnd.choice([0, 1, 7]))
+                # every count field is 1 (or 3): backed by input, so the limits may be off; <<0,0,0>> stops EWKB at the
+                # first collection and lets WKB (whose collections have no limit) through to the bottom
+                for lim in ([-1, -1, -1], [2, 2, 2], [0, 0, 0]):
+                    via = rnd.choice(["", "", "hex", "sql"])
+                    c = dict(bytes=b, flavor=flavor, nan=False, lim=lim, via=via,
+                             wrap=("GC" if rnd.random() < 0.7 else guess_wrap(b, flavor, rnd)) if via == "sql" else "", hexcodes=[])
+                    if len(b) > ref_max:
+                        c["noref"] = True
+                    out.append(c)
+    return out
+
+
+def domain_pass(ctx, cands):
+    """TLC (WKBDecObs!NextDom) evaluates the reference decoder with all limits off on every candidate and reports the
+    largest count field it meets: the property's domain with a limit disabled is 'counts backed by actual input'."""
+    mx = [None] * len(cands)
+    size = max(200, (len(cands) + vlib.NCPU - 1) // vlib.NCPU)
+    parts = [(o, cands[o:o + size]) for o in range(0, len(cands), size)]
+
+    def one(part):
+        off, cs = part
+        f = tempfile.NamedTemporaryFile("w", suffix=".ndjson", dir=ctx.scratch, delete=False)
+        for c in cs:
+            f.write(json.dumps(dict(bytes=c["bytes"], flavor=c["flavor"], nan=c["nan"], via="hexstr" if "hexcodes" in c else "",
+                                    hexcodes=c.get("hexcodes", [])), separators=(",", ":")) + "\n")
+        f.close()
+
+        def on(tag, obj):
+            if tag == "DOM":
+                mx[off + obj["i"] - 1] = obj["mx"]
+        vlib.tlc(ctx, "WKBDecObs", "WKBDom.cfg", env=dict(TRACEFILE=f.name), on=on, name="WKBDecObs/domain", heap="2g")
+        os.unlink(f.name)
+    with ThreadPoolExecutor(max_workers=min(vlib.NCPU, len(parts))) as ex:
+        list(ex.map(one, parts))
+    if any(m is None for m in mx):
+        raise vlib.Infra("domain pass did not report every candidate")
+    return mx
+
+
+def seeded(ctx, bases):
+    n = 4000 if ctx.quick else 60000
+    cands = candidates(ctx, bases, n)
+    mx = domain_pass(ctx, cands)
+    rnd = random.Random(ctx.seed * 1000003 + 6)
+    out, off = [], 0
+    for c, m in zip(cands, mx):
+        lims = [rnd.choice(LIMS_ON)]
+        if m <= 64:                          # counts backed by input: also explored with limits disabled
+            lims.append(rnd.choice(LIMS_OFF))
+            off += 1
+        for lim in lims:
+            if "hexcodes" in c:
+                out.append(dict(bytes=[], flavor=c["flavor"], nan=c["nan"], lim=lim, via="hexstr", wrap="", hexcodes=c["hexcodes"]))
+                continue
+            via = rnd.choice(["", "", "hex", "sql", "sql"])
+            if via == "sql" and c["nan"]:
+                via = ""
+            out.append(dict(bytes=c["bytes"], flavor=c["flavor"], nan=c["nan"], lim=lim, via=via,
+                            wrap=guess_wrap(c["bytes"], c["flavor"], rnd) if via == "sql" else "", hexcodes=[]))
+    deep = nests(ctx, [50, 150, 500, 5000]) if ctx.quick else nests(ctx, [50, 150, 400, 1000, 2000, 5000, 8000], ref_max=13500)
+    ctx.coverage_extra["seeded"] = dict(candidates=len(cands), with_a_limit_disabled=off, cases=len(out), nested=len(deep),
+                                        seed=ctx.seed)
+    return out + deep
+
+
 def run(ctx, verdict):
     cfg = "WKBMut_quick.cfg" if ctx.quick else "WKBMut_thorough.cfg"
     out, r = vlib.model_a(ctx, "WKBMutModel", cfg, ["CASE"], workers=16)
-    cases = sorted(out["CASE"], key=vlib.digest)
-    vlib.note_cases(ctx, cases, nontrivial=lambda c: len(c["bytes"]) > 5)
-    ctx.coverage_extra["model_a"] = [dict(cfg=cfg, cases=len(cases), states=r["distinct"])]
+    cases = out["CASE"]
+    outb, rb = vlib.model_a(ctx, "WKBMutModel", "WKBMut_base.cfg", ["BASE"], workers=1)
+    bases = sorted(outb["BASE"], key=vlib.digest)
+    if not bases:
+        raise vlib.Infra("no valid encodings from WKBMut_base.cfg")
+    extra = seeded(ctx, bases)
+    cases = sorted(cases + extra, key=vlib.digest)
+    vlib.note_cases(ctx, cases, nontrivial=lambda c: len(c["bytes"]) > 5 or len(c["hexcodes"]) > 10)
+    ctx.coverage_extra["model_a"] = [dict(cfg=cfg, cases=len(out["CASE"]), states=r["distinct"]),
+                                     dict(cfg="WKBMut_base.cfg", cases=len(bases), states=rb["distinct"])]
     pipe(ctx, verdict, cases)
+    ctx.assumptions += ["seeded inputs (VERIF_SEED): random bytes, splices / insertions of two valid encodings, 2-6 byte flips, forged "
+                        "32-bit words anywhere, nested collection headers to depth %s, arbitrary strings for the hex wrappers; "
+                        "a limit is disabled only for inputs whose count fields (reference decoder, limits off) are <= 64"
+                        % ("5000 (reference decoder up to 150)" if ctx.quick else "8000 (reference decoder up to 1000)")]
